@@ -1524,3 +1524,7 @@ Lemma diff_pixel' a b df p ca cb :
 Proof.
   intros E Ha Hb. rewrite get_pixel_gp in Ha, Hb. inversion Ha; inversion Hb; subst. apply diff_pixel, E.
 Qed.
+
+(* the colours of diff, pinned to the documented table (GREEN only in self, RED only in other, BLUE different) *)
+Lemma diff_colours : DIFF_ONLY_SELF = 65280 /\ DIFF_ONLY_OTHER = 16711680 /\ DIFF_DIFFERENT = 255.
+Proof. repeat split; reflexivity. Qed.
